@@ -267,6 +267,21 @@ def plain_classes():
         def __hash__(self):
             return 3
 
+    class Container(UserNode):
+        """A realistic container-like node: len(), iteration, indexing and `in` refer to its children."""
+
+        def __len__(self):
+            return len(self.children)
+
+        def __iter__(self):
+            return iter(self.children)
+
+        def __getitem__(self, key):
+            return self.children[key]
+
+        def __contains__(self, item):
+            return any(item is c for c in self.children)
+
     class NoRepr(UserNode):
         """A node whose repr() is not available (e.g. needs an attribute that is set later)."""
 
@@ -274,7 +289,7 @@ def plain_classes():
             raise RuntimeError("repr() of this node is not available")
 
     _PLAIN.update(node=Node, anynode=AnyNode, user=UserNode, light=UserLight, weird=Weird, eqhash=EqHash, falsy=Falsy,
-                  falsylight=FalsyLight, norepr=NoRepr)
+                  falsylight=FalsyLight, norepr=NoRepr, container=Container)
     return _PLAIN
 
 
